@@ -11,13 +11,24 @@ THEOREMS = [
     'Ndn.C07.decodeName_error_classes',
     'Ndn.C07.accepted_has_name', 'Ndn.C07.accepted_outer_exact', 'Ndn.C07.strict_implies_accept_partial',
     'Ndn.C07.overrun_accepted_counterexample', 'Ndn.Gen.C07.packet_schemas_ok',
+    # the strict decoder (NdnModel/CodecStrict.lean) and the exact size of the known finding
+    'Ndn.C07.strict_accepts_well_nested', 'Ndn.C07.strict_agrees', 'Ndn.C07.strict_refines',
+    'Ndn.C07.strict_error_agrees', 'Ndn.C07.only_overruns_differ', 'Ndn.C07.accept_iff_strict',
+    'Ndn.C07.packet_strict_agrees', 'Ndn.C07.packet_strict_refines', 'Ndn.C07.packet_only_overruns_differ',
+    'Ndn.C07.packet_strict_accepts_well_nested', 'Ndn.C07.packet_accept_iff_strict',
+    'Ndn.C07.shipped_decoders_strict', 'Ndn.C07.shipped_only_overruns_differ',
 ]
 PARTIAL = {
     'Ndn.C07.strict_implies_accept_partial':
         'only the direction "library-encoded (hence strictly well-formed) packet => accepted with equal fields" is a '
         'theorem (C08 round trip instantiated); the converse "accepted => every nested element inside its parent" is '
         'FALSE of the code (known finding overrun-*: TlvModel.parse truncates silently) and its negation is proved '
-        '(overrun_accepted_counterexample)',
+        '(overrun_accepted_counterexample). What IS proved about the converse, for every byte string: the decoder and '
+        'the bounds-checked (strict) decoder agree result for result and error class for error class unless the strict '
+        'reading stops at an overrunning element (strict_agrees); strict-accepted <=> accepted with the same fields and '
+        'well nested (accept_iff_strict, shipped_decoders_strict); an accepted packet the strict reading does not '
+        'accept contains an overrunning byte-string, sub-model, boolean or unrecognised element - the four known-finding '
+        'keys (only_overruns_differ). MapField schemas are outside these theorems (no shipped packet has one)',
 }
 TRUSTED = [
     'C07: the four packet schemas are regenerated from the live classes on every run; Python slicing / struct semantics are CPython',
@@ -27,15 +38,24 @@ RULE = ('valid Interest / Data / LpPacket / certificate wires built by the libra
         'and unsigned, tokens, nacks) and Names; each is decoded as is and after one mutation: byte substitution, truncation, '
         'length-field edit (+-1, +-big), element duplicated / deleted / swapped / unknown critical or non-critical element '
         'inserted at a random depth; plus uniformly random byte strings with a plausible outer header. The same wire goes to '
-        'the real decoder, to the Lean model and to an independent strict reader. non-trivial = the mutated wire is accepted '
+        'the real decoder, to the Lean decoder model, to an independent strict reader (Python) and to the Lean strict decoder; '
+        'decoder model = code and Lean strict decoder = Python strict reader (accept / reject, fields, kind of overrun) are '
+        'compared on every wire, including the wires flagged as known finding. non-trivial = the mutated wire is accepted '
         'by the decoder or the strict reader, or is a mutation of a valid packet; distinct = distinct wires')
 LEVEL_TEXT = ('Lean 4 theorems about the decoder model (generic scan loop + parse_and_check_tl + Name.decode) for ALL byte '
               'strings: decoding terminates within fuel proportional to the input and can only fail with the documented '
               'error classes; an accepted packet has its Name and an exact outer length; library-encoded packets are '
-              'accepted with equal fields. The model is tied to the code by differential execution on mutated packets, and '
-              'an independent strict reader is the oracle for "accepts only well-formed".')
+              'accepted with equal fields. A specification-level strict decoder (the same scan loop plus the bounds check '
+              'the code lacks) is related to the decoder model for ALL byte strings: what it accepts is well nested '
+              '(inductive predicate WellNested / PacketNested), the decoder accepts it with exactly the same fields, both '
+              'fail with the same error class otherwise, and the only byte strings on which they differ contain an '
+              'overrunning byte-string / sub-model / boolean / unrecognised element (strict-accepted <=> accepted and '
+              'well nested). The decoder model is tied to the code by differential execution on mutated packets; an '
+              'independent strict reader written in Python is the oracle for "accepts only well-formed", and the Lean '
+              'strict decoder is compared with it on every generated wire (accept / reject, fields, kind of overrun).')
 LEVEL_NOTE = ('The converse direction (accepted => strictly well nested) is false of the unchanged code and recorded as a known '
-              'finding keyed by the kind of element that overruns; the proof covers the model, the tie is sampled.')
+              'finding keyed by the kind of element that overruns; the theorems show these four kinds are the whole gap. '
+              'The proofs cover the models, the ties (decoder model - code, strict model - Python strict reader) are sampled.')
 TECHNIQUE = 'Lean 4 proof (strong induction on fuel over all byte strings) + differential check against the code and a strict reader'
 DESIGN_REF = 'DESIGN.md section 7, C07'
 
@@ -325,16 +345,33 @@ def model_line(case, impl):
         return f'C07 name {w}'
     K = _kinds()[case['kind']]
     fb = ','.join(str(x) for x in K['forbid']) or '.'
-    return f"C07 pkt {impl['schema_text']} {K['outer']} {1 if K['ic'] else 0} {1 if K['need_name'] else 0} {fb} {w}"
+    # `both` = the decoder model's answer followed by the Lean strict decoder's answer
+    return f"C07 both {impl['schema_text']} {K['outer']} {1 if K['ic'] else 0} {1 if K['need_name'] else 0} {fb} {w}"
+
+
+def _strict_canon(tag, detail):
+    """accept / reject, fields, and the kind of an overrun - not the wording of other rejections"""
+    import re
+    if tag == 'ok':
+        return ['ok', detail]
+    m = re.match(r'(?:overrun-)?([a-z-]+)(?: element overruns its parent)?$', detail)
+    if m and (detail.startswith('overrun-') or detail.endswith(' element overruns its parent')):
+        return ['rej', 'overrun-' + m.group(1)]
+    return ['rej', '*']
 
 
 def model_obs(answer, case, impl):
     a = answer.split()
-    return [a[0], a[1]]
+    if case['kind'] == 'name':
+        return [a[0], a[1]]
+    # decoder model vs the code, and Lean strict decoder vs the Python strict reader
+    return [a[0], a[1]] + _strict_canon(a[2], a[3])
 
 
 def impl_obs(impl):
-    return impl['dec']
+    if 'schema_text' not in impl:
+        return impl['dec']
+    return impl['dec'] + _strict_canon(impl['strict'][0], impl['strict'][1])
 
 
 # ------------------------------------------------------------------------------------- oracle
@@ -345,11 +382,31 @@ def oracle(case, impl):
             return f'rejected with an undocumented error class {d[1]}'
         return None
     if s[0] == 'rej':
-        return f'accepted a packet the strict reading rejects: {s[1]}'
+        return _tie_on_flagged(case, impl) or f'accepted a packet the strict reading rejects: {s[1]}'
     if d[1] != s[1]:
         return 'accepted, but an extracted field differs from the strict reading'
     if 'api_name' in impl and impl['api_name'].startswith('STR:'):
         return 'accepted a packet without Name (a str default was returned as name)'
+    return None
+
+
+def _tie_on_flagged(case, impl):
+    """lib.py does not put a case the oracle flags through the model comparison, and the flagged wires are exactly
+    the ones on which the decoder and the strict reading differ. So the two ties (decoder model - code, Lean strict
+    decoder - Python strict reader) are checked here for them; a disagreement is reported under its own key."""
+    if case['kind'] == 'name':
+        return None
+    try:
+        import lib
+        d = lib.Driver(PROP)
+        if not d.ok:
+            return None
+        mo = model_obs(d.ask([model_line(case, impl)])[0], case, impl)
+    except Exception as e:   # noqa
+        return f'model tie on an overrun wire could not be evaluated: {type(e).__name__}'
+    io = impl_obs(impl)
+    if mo != io:
+        return f'model tie broken on an overrun wire: model {mo} != impl {io}'
     return None
 
 
